@@ -63,9 +63,24 @@ impl Child {
     }
 }
 
-fn plan_text(case: &Case, logpath: &std::path::Path) -> String {
+fn plan_text(case: &Case, logpath: &std::path::Path, file_paths: &[String]) -> String {
     let mut s = String::new();
     s.push_str(&format!("log {}\n", logpath.display()));
+    for (i, p) in file_paths.iter().enumerate() {
+        let slot = 3 + i;
+        s.push_str(&format!("file {slot} {p}\n"));
+        if let Some(fp) = case.files.get(i) {
+            if !fp.chunks.is_empty() {
+                s.push_str(&format!("limits {slot} {}\n", fp.chunks.iter().map(ToString::to_string).collect::<Vec<_>>().join(",")));
+            }
+            if !fp.eintr.is_empty() {
+                s.push_str(&format!("eintr {slot} {}\n", fp.eintr.iter().map(|(o, c)| format!("{o}:{c}")).collect::<Vec<_>>().join(" ")));
+            }
+            if let Some(f) = &fp.fault {
+                s.push_str(&format!("fail {slot} {} {} {}\n", f.at, errno_name(f.kind), if f.sticky { "sticky" } else { "recovers" }));
+            }
+        }
+    }
     let lim = |v: &[usize]| v.iter().map(ToString::to_string).collect::<Vec<_>>().join(",");
     let ei = |v: &[(usize, u32)]| v.iter().map(|(o, c)| format!("{o}:{c}")).collect::<Vec<_>>().join(" ");
     if !case.delivery.chunks.is_empty() {
@@ -109,6 +124,59 @@ enum Preset {
     DrainedPipe,
 }
 
+#[derive(Clone, Copy, PartialEq, Eq, Debug)]
+enum StdinKind {
+    File,
+    /// fd 0 is closed before exec (std turns EBADF into end of input)
+    Closed,
+    /// fd 0 is a directory: read(2) fails with EISDIR
+    Directory,
+}
+
+#[derive(Clone, Copy, PartialEq, Eq, Debug)]
+enum StderrKind {
+    File,
+    DevFull,
+    ClosedPipe,
+}
+
+#[derive(Clone, Debug)]
+struct Cfg {
+    with_shim: bool,
+    preset: Preset,
+    stdin: StdinKind,
+    stderr: StderrKind,
+    /// file arguments (their content), passed after `--`
+    files: Vec<Vec<u8>>,
+}
+
+impl Cfg {
+    fn plain() -> Cfg {
+        Cfg {
+            with_shim: false,
+            preset: Preset::Files,
+            stdin: StdinKind::File,
+            stderr: StderrKind::File,
+            files: Vec::new(),
+        }
+    }
+}
+
+fn closed_pipe_writer() -> Result<std::fs::File, String> {
+    let mut fds = [0i32; 2];
+    // SAFETY: plain pipe(2) call with a valid two-element array
+    if unsafe { libc::pipe2(fds.as_mut_ptr(), libc::O_CLOEXEC) } != 0 {
+        return Err("pipe failed".into());
+    }
+    // SAFETY: fds are freshly created and owned here
+    unsafe {
+        libc::close(fds[0]);
+    }
+    use std::os::fd::FromRawFd;
+    // SAFETY: fds[1] is a valid, owned descriptor
+    Ok(unsafe { std::fs::File::from_raw_fd(fds[1]) })
+}
+
 fn bin_path() -> PathBuf {
     verif_root().join("target/jawk-bin/release/jawk")
 }
@@ -118,6 +186,18 @@ fn shim_path() -> PathBuf {
 }
 
 fn spawn(case: &Case, input: &[u8], with_shim: bool, preset: Preset, ctx: &mut Ctx) -> Result<Child, String> {
+    let cfg = Cfg {
+        with_shim,
+        preset,
+        ..Cfg::plain()
+    };
+    spawn_cfg(case, input, &cfg, &[], ctx)
+}
+
+/// `paths`: where the file arguments of `cfg.files` live (created here, removed afterwards).
+fn spawn_cfg(case: &Case, input: &[u8], cfg: &Cfg, paths: &[String], ctx: &mut Ctx) -> Result<Child, String> {
+    let with_shim = cfg.with_shim;
+    let preset = cfg.preset;
     let dir = ctx.tmpdir.clone();
     let tag = ctx.fresh_path("p");
     let stem = tag.file_stem().unwrap().to_string_lossy().to_string();
@@ -129,8 +209,43 @@ fn spawn(case: &Case, input: &[u8], with_shim: bool, preset: Preset, ctx: &mut C
     std::fs::write(&inp, input).map_err(|e| e.to_string())?;
     let mut cmd = Command::new(bin_path());
     cmd.args(case.argv());
-    cmd.stdin(std::fs::File::open(&inp).map_err(|e| e.to_string())?);
-    cmd.stderr(std::fs::File::create(&errp).map_err(|e| e.to_string())?);
+    if !cfg.files.is_empty() {
+        cmd.arg("--");
+        for (p, d) in paths.iter().zip(cfg.files.iter()) {
+            std::fs::write(p, d).map_err(|e| e.to_string())?;
+            cmd.arg(p);
+        }
+    }
+    match cfg.stdin {
+        StdinKind::File => {
+            cmd.stdin(std::fs::File::open(&inp).map_err(|e| e.to_string())?);
+        }
+        StdinKind::Directory => {
+            cmd.stdin(std::fs::File::open(&dir).map_err(|e| e.to_string())?);
+        }
+        StdinKind::Closed => {
+            cmd.stdin(std::fs::File::open(&inp).map_err(|e| e.to_string())?);
+            use std::os::unix::process::CommandExt;
+            // SAFETY: close(2) is async-signal-safe; runs in the child between fork and exec
+            unsafe {
+                cmd.pre_exec(|| {
+                    libc::close(0);
+                    Ok(())
+                });
+            }
+        }
+    }
+    match cfg.stderr {
+        StderrKind::File => {
+            cmd.stderr(std::fs::File::create(&errp).map_err(|e| e.to_string())?);
+        }
+        StderrKind::DevFull => {
+            cmd.stderr(std::fs::OpenOptions::new().write(true).open("/dev/full").map_err(|e| e.to_string())?);
+        }
+        StderrKind::ClosedPipe => {
+            cmd.stderr(closed_pipe_writer()?);
+        }
+    }
     cmd.env_remove("RUST_BACKTRACE");
     let mut drain: Option<std::process::ChildStdout> = None;
     match preset {
@@ -146,26 +261,14 @@ fn spawn(case: &Case, input: &[u8], with_shim: bool, preset: Preset, ctx: &mut C
             );
         }
         Preset::ClosedPipe => {
-            let mut fds = [0i32; 2];
-            // SAFETY: plain pipe(2) call with a valid two-element array
-            if unsafe { libc::pipe2(fds.as_mut_ptr(), libc::O_CLOEXEC) } != 0 {
-                return Err("pipe failed".into());
-            }
-            // SAFETY: fds are freshly created and owned here
-            unsafe {
-                libc::close(fds[0]);
-            }
-            use std::os::fd::FromRawFd;
-            // SAFETY: fds[1] is a valid, owned descriptor
-            let w = unsafe { std::fs::File::from_raw_fd(fds[1]) };
-            cmd.stdout(w);
+            cmd.stdout(closed_pipe_writer()?);
         }
         Preset::DrainedPipe => {
             cmd.stdout(Stdio::piped());
         }
     }
     if with_shim {
-        std::fs::write(&planp, plan_text(case, &logp)).map_err(|e| e.to_string())?;
+        std::fs::write(&planp, plan_text(case, &logp, paths)).map_err(|e| e.to_string())?;
         cmd.env("LD_PRELOAD", shim_path());
         cmd.env("IOFAULT_PLAN", &planp);
     }
@@ -224,6 +327,9 @@ fn spawn(case: &Case, input: &[u8], with_shim: bool, preset: Preset, ctx: &mut C
     for p in [&inp, &outp, &errp, &logp, &planp] {
         let _ = std::fs::remove_file(p);
     }
+    for p in paths {
+        let _ = std::fs::remove_file(p);
+    }
     ctx.stats.runs += 1;
     ctx.stats.events += c.log.len() as u64;
     ctx.stats.bytes_out += (c.out.len() + c.err.len()) as u64;
@@ -257,6 +363,9 @@ fn spawn(case: &Case, input: &[u8], with_shim: bool, preset: Preset, ctx: &mut C
         None => 2,
     });
     t.push(preset as u8);
+    t.push(cfg.stdin as u8);
+    t.push(cfg.stderr as u8);
+    t.push(cfg.files.len() as u8);
     ctx.fold_trace(crate::rng::hash_bytes(&t));
     Ok(c)
 }
@@ -323,14 +432,17 @@ impl Property for C20 {
     }
 
     fn generate(&self, rng: &mut Rng, tier: Tier) -> Case {
-        let family = match rng.below(20) {
+        let family = match rng.below(25) {
             0..=4 => "valid",
             5..=6 => "invalid",
             7..=9 => "read-fault",
             10..=14 => "write-fault",
             15 => "err-fault",
             16..=17 => "transparent",
-            _ => "preset",
+            18..=19 => "preset",
+            20..=22 => "file-read-fault",
+            23 => "stdin-preset",
+            _ => "stderr-preset",
         };
         let mut case = Case::new("C20", family);
         let big = rng.chance(1, 8);
@@ -422,6 +534,35 @@ impl Property for C20 {
             "preset" => {
                 case.set("preset", rng.range(1, 3) as i64);
             }
+            "file-read-fault" => {
+                // the input arrives as 1..3 file arguments; read(2) on one of them fails
+                let inside = rng.chance(1, 3);
+                super::c17::place_cuts(rng, &mut case, inside);
+                let datas = split_files(&case);
+                case.files = datas.iter().map(|d| gen_file_plan(rng, d.len())).collect();
+                let j = rng.below(datas.len());
+                if rng.chance(5, 6) {
+                    case.files[j].eintr.retain(|_| false);
+                    case.files[j].fault = Some(Fault {
+                        at: rng.below(datas[j].len() + 1),
+                        kind: *rng.pick(&ErrKind::READ_KINDS),
+                        sticky: rng.chance(1, 2),
+                    });
+                }
+                case.opts.retain(|o| !o.iter().any(|t| t.contains("&file-name")));
+            }
+            "stdin-preset" => {
+                case.set("stdin", rng.range(1, 2) as i64);
+            }
+            "stderr-preset" => {
+                case.opts.retain(|o| !o[0].starts_with("--on-error"));
+                case.opts.push(policy_opt(Policy::Stderr));
+                case.set("stderr", rng.range(1, 2) as i64);
+                if !case.pieces.iter().any(|p| p.kind == Kind::Garbage) {
+                    let at = rng.below(case.pieces.len() + 1);
+                    case.pieces.insert(at, Piece::garbage(gen_garbage_region(rng)));
+                }
+            }
             _ => {}
         }
         case
@@ -436,6 +577,12 @@ impl Property for C20 {
                 shim_path().display()
             ));
             return None;
+        }
+        match case.family.as_str() {
+            "file-read-fault" => return check_file_fault(case, ctx),
+            "stdin-preset" => return check_stdin_preset(case, ctx),
+            "stderr-preset" => return check_stderr_preset(case, ctx),
+            _ => {}
         }
         let input = case.stream();
         let class = classify(&case.opts);
@@ -696,4 +843,180 @@ impl Property for C20 {
         }
         None
     }
+}
+
+macro_rules! try_spawn {
+    ($ctx:expr, $e:expr) => {
+        match $e {
+            Ok(c) => c,
+            Err(e) => {
+                $ctx.harness_error = Some(e);
+                return None;
+            }
+        }
+    };
+}
+
+/// read(2) on a file argument fails (shim slot 3+j): the executable must report it.
+fn check_file_fault(case: &Case, ctx: &mut Ctx) -> Option<Violation> {
+    let datas = split_files(case);
+    if case.files.len() != datas.len() {
+        ctx.stats.invalid = true;
+        return None;
+    }
+    let class = classify(&case.opts);
+    let paths = ctx.fresh_paths(datas.len());
+    let mut cfg = Cfg::plain();
+    cfg.files = datas.clone();
+    let f = try_spawn!(ctx, spawn_cfg(case, b"", &cfg, &paths, ctx));
+    if f.timed_out {
+        return viol("C20.hang", format!("fault-free child on {} files did not finish: {}", datas.len(), f.describe()));
+    }
+    if f.status.is_none() {
+        return viol("C20.exit-fail", format!("fault-free child on files was killed by a signal: {}", f.describe()));
+    }
+    cfg.with_shim = true;
+    let r = try_spawn!(ctx, spawn_cfg(case, b"", &cfg, &paths, ctx));
+    if r.timed_out {
+        return viol("C20.hang", format!("child under file read faults did not finish within 20 s: {}", r.describe()));
+    }
+    if r.status == Some(97) {
+        return viol("C20.stops", format!("more than 64 reads on a file after a sticky failure: {}", r.describe()));
+    }
+    let delivered: Vec<i32> = (0..datas.len() as i32).filter(|j| r.fatal_on(3 + j).is_some()).collect();
+    let opened = r.log.iter().filter(|l| l.1 == 'o').count();
+    ctx.stats.probe_n("file arguments opened under the shim", opened as u64);
+    if delivered.is_empty() {
+        if r.eintrs() + r.shorts() > 0 {
+            ctx.stats.nontrivial = true;
+            ctx.stats.fault("process.file.short-or-eintr-only", 1);
+        }
+        if r.status != f.status || r.out != f.out || r.err != f.err {
+            return viol(
+                "C20.transparent",
+                format!("no read failure was delivered on any file (only EINTR/short reads) but the run differs: {} vs {}", r.describe(), f.describe()),
+            );
+        }
+        return None;
+    }
+    ctx.stats.nontrivial = true;
+    ctx.stats.fault("process.file.read.failed", 1);
+    if delivered[0] > 0 {
+        ctx.stats.probe("read fault in a later file argument");
+    }
+    if r.status.is_none() {
+        return viol("C20.exit-fail", format!("child killed by a signal under a file read fault: {}", r.describe()));
+    }
+    if r.status == Some(0) {
+        return viol(
+            "C20.exit-fail",
+            format!("reading file argument {} failed but the exit status is 0: {}", delivered[0], r.describe()),
+        );
+    }
+    if r.err.len() <= f.err.len() && r.err.is_empty() {
+        return viol("C20.exit-fail", format!("file read failure without a message on stderr: {}", r.describe()));
+    }
+    if class != Class::Buffering && policy_of(&case.opts) != Policy::Stdout && !is_prefix(&r.out, &f.out) {
+        return viol(
+            "C20.rows-on-stdout",
+            format!("under a file read fault standard output is not a prefix of the fault-free output: {} vs {}", show(&r.out), show(&f.out)),
+        );
+    }
+    None
+}
+
+/// fd 0 closed (std reports end of input) or a directory (read fails with EISDIR).
+fn check_stdin_preset(case: &Case, ctx: &mut Ctx) -> Option<Violation> {
+    let kind = if case.param("stdin") == 1 { StdinKind::Closed } else { StdinKind::Directory };
+    let cfg = Cfg::plain();
+    // what the same configuration does on an empty input
+    let e = try_spawn!(ctx, spawn_cfg(case, b"", &cfg, &[], ctx));
+    if e.timed_out || e.status.is_none() {
+        return viol("C20.hang", format!("child on empty input: {}", e.describe()));
+    }
+    let mut c2 = Cfg::plain();
+    c2.stdin = kind;
+    let r = try_spawn!(ctx, spawn_cfg(case, &case.stream(), &c2, &[], ctx));
+    ctx.stats.fault(&format!("preset.stdin.{kind:?}"), 1);
+    ctx.stats.nontrivial = true;
+    if r.timed_out {
+        return viol("C20.hang", format!("child with {kind:?} stdin did not finish: {}", r.describe()));
+    }
+    if r.status.is_none() {
+        return viol("C20.exit-fail", format!("child with {kind:?} stdin was killed by a signal: {}", r.describe()));
+    }
+    if e.status != Some(0) {
+        // the configuration itself is rejected: the same must happen whatever stdin is
+        if r.status == Some(0) {
+            return viol("C20.exit-fail", format!("configuration fails on empty input but succeeds with {kind:?} stdin: {}", r.describe()));
+        }
+        return None;
+    }
+    match kind {
+        StdinKind::Closed => {
+            if r.status != e.status || r.out != e.out || r.err != e.err {
+                return viol(
+                    "C20.exit-ok",
+                    format!("closed stdin reads as end of input, yet the run differs from the run on an empty input: {} vs {}", r.describe(), e.describe()),
+                );
+            }
+        }
+        _ => {
+            if r.status == Some(0) {
+                return viol("C20.exit-fail", format!("stdin is a directory (read fails) but the exit status is 0: {}", r.describe()));
+            }
+            if r.err.is_empty() {
+                return viol("C20.exit-fail", format!("stdin is a directory: failure without a message on stderr: {}", r.describe()));
+            }
+            if !is_prefix(&r.out, &e.out) {
+                return viol(
+                    "C20.rows-on-stdout",
+                    format!("stdin is a directory: standard output is not a prefix of the output for an empty input: {} vs {}", show(&r.out), show(&e.out)),
+                );
+            }
+        }
+    }
+    None
+}
+
+/// --on-error=stderr with diagnostics to write, and a standard error that cannot take them.
+fn check_stderr_preset(case: &Case, ctx: &mut Ctx) -> Option<Violation> {
+    let kind = if case.param("stderr") == 1 { StderrKind::DevFull } else { StderrKind::ClosedPipe };
+    let input = case.stream();
+    let class = classify(&case.opts);
+    let f = try_spawn!(ctx, spawn_cfg(case, &input, &Cfg::plain(), &[], ctx));
+    if f.timed_out || f.status.is_none() {
+        return viol("C20.hang", format!("fault-free child: {}", f.describe()));
+    }
+    let mut c2 = Cfg::plain();
+    c2.stderr = kind;
+    let r = try_spawn!(ctx, spawn_cfg(case, &input, &c2, &[], ctx));
+    ctx.stats.fault(&format!("preset.stderr.{kind:?}"), 1);
+    if r.timed_out {
+        return viol("C20.hang", format!("child with {kind:?} stderr did not finish: {}", r.describe()));
+    }
+    if r.status.is_none() {
+        return viol("C20.exit-fail", format!("child with {kind:?} stderr was killed by a signal: {}", r.describe()));
+    }
+    if f.err.is_empty() {
+        // nothing had to be written to stderr: the run must be unaffected
+        if r.status != f.status || r.out != f.out {
+            return viol("C20.exit-ok", format!("nothing is written to stderr, yet a {kind:?} stderr changes the run: {} vs {}", r.describe(), f.describe()));
+        }
+        return None;
+    }
+    ctx.stats.nontrivial = true;
+    if f.status == Some(0) && r.status == Some(0) {
+        return viol(
+            "C20.exit-fail",
+            format!("{} bytes of diagnostics could not be written to a {kind:?} stderr but the exit status is 0", f.err.len()),
+        );
+    }
+    if class != Class::Buffering && !is_prefix(&r.out, &f.out) {
+        return viol(
+            "C20.rows-on-stdout",
+            format!("stderr is {kind:?}: standard output is not a prefix of the fault-free output: {} vs {}", show(&r.out), show(&f.out)),
+        );
+    }
+    None
 }
